@@ -63,6 +63,7 @@ type Budget struct {
 	Bounds   []int         // preemption bounds to iterate (-1 = unbounded)
 	Required int           // the first Required bounds must complete (else the run is not exhaustive); later ones are best effort
 	Prune    bool          // state-key pruning
+	Elide    bool          // no scheduling point at operations on objects only one thread touches (fixpoint over restarts)
 	PerScen  time.Duration // wall budget per scenario
 	MaxExecs int64
 }
@@ -72,6 +73,11 @@ func Explore(i int, sc Scenario, b Budget) *Result {
 	t0 := time.Now()
 	res := &Result{Index: i, Name: sc.Name, BoundDone: -1, Outcomes: map[string]int{}, KnownSeen: map[string]int{}}
 	body, check := sc.Make()
+	vrt.LocalElision = b.Elide
+	vrt.ResetShared()
+	defer func() {
+		res.PerBound = append(res.PerBound, fmt.Sprintf("local-object elision=%v shared_objects=%d elided_ops=%d", b.Elide, vrt.SharedCount(), vrt.Elided))
+	}()
 	if err := vrt.CheckDeterminism(nil, body); err != nil {
 		res.Viols = append(res.Viols, Viol{Signature: "harness-nondeterministic-replay", Desc: err.Error(), Scenario: sc.Params, ScenarioI: i})
 		return res
@@ -105,7 +111,7 @@ func Explore(i int, sc Scenario, b Budget) *Result {
 		tb := time.Now()
 		e.Explore(body)
 		_ = lastX
-		res.PerBound = append(res.PerBound, fmt.Sprintf("bound=%d execs=%d pruned=%d states=%d wall=%.1fs capped=%q", bound, e.Execs, e.Pruned, e.States(), time.Since(tb).Seconds(), e.Capped))
+		res.PerBound = append(res.PerBound, fmt.Sprintf("bound=%d execs=%d pruned=%d states=%d restarts=%d wall=%.1fs capped=%q", bound, e.Execs, e.Pruned, e.States(), e.Restarts, time.Since(tb).Seconds(), e.Capped))
 		res.Execs += e.Execs
 		res.Pruned += e.Pruned
 		res.Points += e.Points
